@@ -457,7 +457,26 @@ async fn update_case(c: &Value, variant: usize) -> Value {
     let dcontent = b"delegated content".to_vec();
     let mut dentries = Map::new();
     dentries.insert("d/x.bin".into(), target_entry(&dcontent));
-    let d_env = envelope(&targets_signed(4, EXP, dentries, None), &[&d]);
+    // second level: d delegates d/e/* to e
+    let ek = ed_key(111);
+    let mut eentries = Map::new();
+    eentries.insert("d/e/y.bin".into(), target_entry(b"second level content"));
+    let mut es = targets_signed(7, EXP, eentries, None);
+    if h("delegated-extra") {
+        es["x-e-extra"] = json!({"kept": ["for e", 2]});
+    }
+    let e_env = envelope(&es, &[&ek]);
+    let e_bytes = to_bytes(&e_env);
+    let ddeleg = if h("nested") {
+        Some(delegations_json(&[&ek], vec![delegated_role_json("e", &[ek.keyid.clone()], 1, &["d/e/*"], false)]))
+    } else {
+        None
+    };
+    let mut ds = targets_signed(4, EXP, dentries, ddeleg);
+    if h("delegated-extra") {
+        ds["x-d-extra"] = json!("kept for d");
+    }
+    let d_env = envelope(&ds, &[&d]);
     let d_bytes = to_bytes(&d_env);
     let delegations = if h("delegation") {
         Some(delegations_json(&[&d], vec![delegated_role_json("d", &[d.keyid.clone()], 1, &["d/*"], false)]))
@@ -473,6 +492,9 @@ async fn update_case(c: &Value, variant: usize) -> Value {
     meta.insert("targets.json".into(), meta_entry(1, Some(tg_bytes.len() as u64), Some(&sha256_hex(&tg_bytes))));
     if h("delegation") {
         meta.insert("d.json".into(), meta_entry(4, Some(d_bytes.len() as u64), Some(&sha256_hex(&d_bytes))));
+        if h("nested") {
+            meta.insert("e.json".into(), meta_entry(7, Some(e_bytes.len() as u64), Some(&sha256_hex(&e_bytes))));
+        }
     }
     let mut sns = snapshot_signed(1, EXP, meta);
     if h("snapshot-extra") {
@@ -487,6 +509,7 @@ async fn update_case(c: &Value, variant: usize) -> Value {
     let pre = |v: u64, n: &str| if consistent { format!("metadata/{v}.{n}") } else { format!("metadata/{n}") };
     t.put_body(&pre(1, "targets.json"), tg_bytes);
     t.put_body(&pre(4, "d.json"), d_bytes.clone());
+    t.put_body(&pre(7, "e.json"), e_bytes.clone());
     t.put_body(&pre(1, "snapshot.json"), sn_bytes);
     t.put_body("metadata/timestamp.json", to_bytes(&envelope(&tss, &[&ts])));
     let shipped = std::fs::read(&e.root_path).unwrap();
@@ -539,11 +562,28 @@ async fn update_case(c: &Value, variant: usize) -> Value {
             if same_structure && same_file && sig_ok && listed { kept.push("delegation"); } else {
                 problems.push(format!("delegation: structure kept={same_structure} file identical={same_file} signature valid={sig_ok} listed in snapshot={listed}"));
             }
+            if h("delegated-extra") {
+                if od["signed"]["x-d-extra"] == ds["x-d-extra"] && (!h("nested") || rd(&pf(7, "e.json"))["signed"]["x-e-extra"] == es["x-e-extra"]) { kept.push("delegated-extra"); }
+            }
+            if h("nested") {
+                let oe = rd(&pf(7, "e.json"));
+                let same_file = oe == e_env;
+                let sig_ok = oe["signatures"].as_array().map(|a| a.iter().any(|s| ed_verify(&ek, &canon(&oe["signed"]), s["sig"].as_str().unwrap_or("")))).unwrap_or(false);
+                let listed = osn["signed"]["meta"]["e.json"]["version"] == json!(7);
+                if same_file && sig_ok && listed { kept.push("nested"); } else {
+                    problems.push(format!("second-level role: file identical={same_file} signature valid={sig_ok} listed in snapshot={listed}"));
+                }
+            }
         } else if otg["signed"]["delegations"] != tgs["delegations"] {
             problems.push("empty delegations object changed".into());
         }
         if otg["signed"]["version"] != json!(2) || osn["signed"]["version"] != json!(2) || ots["signed"]["version"] != json!(2) {
             problems.push("versions were not set".into());
+        }
+        // every role's content and signatures still valid: a client holding the root loads the result
+        match tough::RepositoryLoader::new(&shipped, url::Url::from_directory_path(&md).unwrap(), url::Url::from_directory_path(&md).unwrap()).load().await {
+            Ok(_) => {}
+            Err(x) => problems.push(format!("the updated repository does not load: {}", classify(&x))),
         }
         Ok(json!({"kept": kept, "problems": problems}))
     }.await;
